@@ -122,3 +122,36 @@ Example C14_array_instance :
   | _ => False
   end.
 Proof. vm_compute. split; reflexivity. Qed.
+
+(* ---------- ReadArray and the full mirror ---------- *)
+From KV Require Import Proofs.ReadArrayProofs Proofs.MirrorArrayProofs.
+
+(* every path of ReadArray (byte loop, bulk copies out of the buffer with refills, 256-bit and 64-bit
+   combining loops, tail), in every reachable state of a stream whose buffer holds whole words, for
+   every chunk schedule of the source: exactly the next [count] bits, packed in bytes *)
+Theorem C14_read_array : forall s count, RA s -> 0 < count -> count <= total s ->
+  exists s', read_array s count = (s', Val (bytes_of (uval s) (total s) count)) /\ RA s' /\
+    total s' = total s - count /\ uval s' = uval s mod 2 ^ (total s - count).
+Proof. exact read_array_spec. Qed.
+Print Assumptions C14_read_array.
+
+(* the whole property: any program over WriteBit / WriteBits / WriteArray, closed, read back with
+   ReadBit / ReadBits / ReadArray of the same sizes, through any chunk schedule of the source and any
+   buffer sizes (multiples of 8; at least 40 for the writer) returns what was written *)
+Theorem C14_mirror_all_operations : forall wbuf rbuf sched ops,
+  40 <= wbuf -> wbuf mod 8 = 0 -> 0 < rbuf -> rbuf mod 8 = 0 -> Forall aop_ok ops ->
+  exists s1 s2, run_aops (new_obs wbuf) ops = (s1, false) /\ close healthy s1 = (s2, false) /\
+    run_arops (new_ibs rbuf (mkSrc (o_out s2) sched None 0)) (arops_of ops) = avals_of ops.
+Proof. exact bitstream_mirror_arrays. Qed.
+Print Assumptions C14_mirror_all_operations.
+
+Example C14_mirror_all_instance :
+  let ops := [AOp (WBits 5 3); AArr [171; 205; 239; 1; 35; 69; 103; 137; 154; 188; 222; 240] 93; AOp (WBit 1); AArr [255; 0; 255] 24] in
+  match run_aops (new_obs 40) ops with
+  | (s1, false) => match close healthy s1 with
+                   | (s2, false) => run_arops (new_ibs 8 (mkSrc (o_out s2) [3; 1; 2; 5] None 0)) (arops_of ops) =
+                       [Some (AVal 5); Some (ABytes [171; 205; 239; 1; 35; 69; 103; 137; 154; 188; 222; 240]); Some (AVal 1); Some (ABytes [255; 0; 255])]
+                   | _ => False end
+  | _ => False
+  end.
+Proof. vm_compute. reflexivity. Qed.
